@@ -230,6 +230,41 @@ func (e *Engine) registerIntrinsics() {
 	}
 	n["(reflect.Value).SetInt"] = setInt
 	n["(reflect.Value).SetUint"] = setInt
+	n["encoding/hex.DecodeString"] = func(e *Engine, st *State, a []Value, ci ssa.CallInstruction) Value {
+		sl := a[0].(Slice)
+		if sl.Obj != 0 {
+			o := st.obj(sl.Obj)
+			if h := o.HexSrc; h != nil && sl.Off.IsConst() && sl.Off.C == 0 && sl.Len == o.Len {
+				// the exact inverse of EncodeToString
+				arr := copyInto(ZeroArr(), U64(0), h.Arr, h.Off, h.Len)
+				id := st.newBytes(arr, h.Len)
+				return Tuple{[]Value{Slice{Obj: id, Off: U64(0), Len: h.Len, Cap: h.Len}, Iface{}}}
+			}
+		}
+		str, ok := e.concreteString(st, sl)
+		if !ok {
+			panic(abortSignal{"hex.DecodeString of a symbolic string that is not an EncodeToString result"})
+		}
+		out := make([]byte, 0, len(str)/2)
+		if len(str)%2 != 0 {
+			return Tuple{[]Value{Slice{Obj: 0, Off: U64(0), Len: U64(0), Cap: U64(0)}, e.opaqueError(st, "hex: odd length")}}
+		}
+		for i := 0; i+1 < len(str); i += 2 {
+			hi, ok1 := unhex(str[i])
+			lo, ok2 := unhex(str[i+1])
+			if !ok1 || !ok2 {
+				return Tuple{[]Value{Slice{Obj: 0, Off: U64(0), Len: U64(0), Cap: U64(0)}, e.opaqueError(st, "hex: invalid byte")}}
+			}
+			out = append(out, hi<<4|lo)
+		}
+		arr := ZeroArr()
+		for i, c := range out {
+			arr = Store(arr, U64(uint64(i)), BVC(8, uint64(c)))
+		}
+		ln := U64(uint64(len(out)))
+		id := st.newBytes(arr, ln)
+		return Tuple{[]Value{Slice{Obj: id, Off: U64(0), Len: ln, Cap: ln}, Iface{}}}
+	}
 	nop := func(e *Engine, st *State, a []Value, ci ssa.CallInstruction) Value { return nil }
 	lock := func(e *Engine, st *State, a []Value, ci ssa.CallInstruction) Value { st.lockDepth++; return nil }
 	unlock := func(e *Engine, st *State, a []Value, ci ssa.CallInstruction) Value {
@@ -264,4 +299,16 @@ func (e *Engine) registerIntrinsics() {
 		s := BVSub(BVSub(ZExt(x, 65), ZExt(y, 65)), ZExt(c, 65))
 		return Tuple{[]Value{BV{Extract(s, 63, 0)}, BV{ZExt(Extract(s, 64, 64), 64)}}}
 	}
+}
+
+func unhex(c byte) (byte, bool) {
+	switch {
+	case c >= '0' && c <= '9':
+		return c - '0', true
+	case c >= 'a' && c <= 'f':
+		return c - 'a' + 10, true
+	case c >= 'A' && c <= 'F':
+		return c - 'A' + 10, true
+	}
+	return 0, false
 }
